@@ -35,7 +35,7 @@ def main():
             hist[tid] = docs
             f.write(json.dumps(drive.history_trace(tid, docs)) + "\n")
     cfg = tlc.cfg_text(init="TInit", next_="TNext", invariants=["Report"], switches=switches,
-                       constants={"Docs": "{}", "SafeFlags": "{TRUE}", "MinStages": "1", "MaxStages": "9"})
+                       constants={"Docs": "<- NoDocs", "Prop": "\"C02\"", "SafeFlags": "{TRUE}", "MinStages": "1", "MaxStages": "9"})
     t0 = time.time()
     r = tlc.run("AyBuildTrace", cfg, wd, env={"TRACE_FILE": path}, workers=8)
     rows = tlc.tuple_prints(r["out"], "TRACE")
